@@ -4,7 +4,9 @@ from vf.gen import pick_weighted
 from props.b10util import parse_expanded as parse_out, show_out, coq_op, coq_universe, coq_nlist, AbsStore
 
 ID = "C17"
-THEOREMS = ["C17_placeholder"]
+THEOREMS = ["C17_memory_refines_partial", "C17_memory_guard_tight", "C17_filesystem_refines_partial",
+            "C17_backends_agree_partial", "C17_memory_refuted", "C17_filesystem_refuted_cas",
+            "C17_filesystem_refuted_packrefs", "C17_backends_agree_refuted"]
 MODEL_FILES = ["StorageAPI.v"]
 MODELLED = ("storage/memory/storage.go (ReferenceStorage incl. CheckAndSetReference, ObjectStorage, IndexStorage, ConfigStorage, "
             "ShallowStorage, ReflogStorage) as mem_step; storage/filesystem + dotgit at API level as fs_step: SetRef/setRefRwfs/"
